@@ -249,13 +249,22 @@ func ruleRetryAndNotify(c *Check, rule string) {
 		return
 	}
 	pos := c.P.Pos(fn.Pos())
-	w := &Walker{P: c.P, loops: map[*ssa.Function]*loopInfo{}}
-	hs := loopHeaders(w, fn, func(in ssa.Instruction) bool { return isCallTo(in, fnDlLoadOnce) })
-	if len(hs) < 2 {
-		c.Undecided(rule, fnDlRun, "expected the notification loop and the retry loop around LoadOnce", pos)
-		return
+	// the retry loop: the innermost loop around the LoadOnce call, in whichever
+	// function (Run itself or a helper split off it) the call lives
+	innerOf := func(call ssa.Instruction) *ssa.BasicBlock {
+		var best *ssa.BasicBlock
+		bestN := 0
+		for _, b := range call.Parent().Blocks {
+			if !isLoopHeader(b) {
+				continue
+			}
+			body := loopBody(b)
+			if body[call.Block()] && (best == nil || len(body) < bestN) {
+				best, bestN = b, len(body)
+			}
+		}
+		return best
 	}
-	inner := hs[len(hs)-1]
 	nFail, nOK := 0, 0
 	retryOK, lastOK, giveUpOnlyWhenMarked := true, true, true
 	for i := range paths {
@@ -274,7 +283,8 @@ func ruleRetryAndNotify(c *Check, rule string) {
 			if !okl {
 				nFail++
 				sl := callsOf(p, "utils.SleepContext")
-				cont := p.End == fmt.Sprintf("backedge:%d", inner.Index)
+				inner := innerOf(lo.Instr)
+				cont := inner != nil && p.EndPos != nil && p.EndPos.Parent() == lo.Instr.Parent() && p.End == fmt.Sprintf("backedge:%d", inner.Index)
 				cancelled := p.End == "return" && !retIsNilErr(p) && len(sl) == 1
 				if !(len(sl) == 1 && (cont || cancelled)) || lastSet {
 					retryOK = false
@@ -336,13 +346,14 @@ func ruleRetryAndNotify(c *Check, rule string) {
 // snapshot is skipped only when its name equals the last notified one or it is
 // the own instance outside start-up.
 func receiverNotifiesOnAnyChange(c *Check, rule string) (bool, string) {
+	inclOwn := param(c.P.Func(fnRecvRun), 2)
 	fn, paths := c.walkFn(rule, fnRecvRun, WalkConfig{Memo: true,
 		KeepEvent: func(e *Event) bool {
 			return e.Kind == "ret" || e.Kind == "call" && (strings.Contains(e.Callee, "getDownloader") || strings.Contains(e.Callee, "NotifyNewSnapshot")) || e.Kind == "mapupdate" && strings.HasSuffix(e.Addr, "lastNotifiedByInstance")
 		},
 		KeepAtom: func(a Atom) bool {
 			s := a.String()
-			return strings.Contains(s, "lastNotifiedByInstance") || strings.Contains(s, "includingOwn") || strings.Contains(s, ".ownInstance") || strings.Contains(s, "Timestamp") || strings.Contains(s, "next(range(local:lastSeenByInstance") || strings.Contains(s, "next(range(makemap")
+			return strings.Contains(s, "lastNotifiedByInstance") || strings.Contains(s, inclOwn) || strings.Contains(s, ".ownInstance") || strings.Contains(s, "Timestamp") || strings.Contains(s, "next(range(")
 		}})
 	if paths == nil {
 		return false, "RunOnce not analysable"
